@@ -149,6 +149,12 @@ impl Write for Scripted {
             Ans::Fail(k) => Err(io::Error::new(k, "injected")),
         }
     }
+    /// a gathering write (like a file or socket): one scripted answer for the concatenation of the buffers, so that
+    /// code which hands over several pieces in one call sees a writer that can stop anywhere inside them
+    fn write_vectored(&mut self, bufs: &[io::IoSlice<'_>]) -> io::Result<usize> {
+        let all: Vec<u8> = bufs.iter().flat_map(|b| b.iter().copied()).collect();
+        self.write(&all)
+    }
     fn flush(&mut self) -> io::Result<()> {
         Ok(())
     }
